@@ -3,6 +3,7 @@ import numpy as np
 
 from .read import SgzReader
 from .utils import pad, int_to_bytes, np_float_to_bytes, np_float_to_bytes_signed, coord_to_index
+from .version import SeismicZfpVersion
 from .sgzconstants import DISK_BLOCK_BYTES, SEGY_TEXT_HEADER_BYTES
 
 
@@ -41,6 +42,13 @@ class SgzCropper(SgzReader):
             print(err_string.format("Zslice", 0, len(self.zslices), *zslices_index_range))
             valid_bounds = False
 
+        for axis_name, index_range in (("Inline", iline_index_range),
+                                       ("Crossline", xline_index_range),
+                                       ("Zslice", zslices_index_range)):
+            if index_range[0] >= index_range[1]:
+                print("{} range ({},{}) is empty or inverted.".format(axis_name, *index_range))
+                valid_bounds = False
+
         if valid_bounds:
             iline_index_range = self.correct_bounds(iline_index_range, "inline", len(self.ilines), 0)
             xline_index_range = self.correct_bounds(xline_index_range, "crossline", len(self.xlines), 1)
@@ -77,10 +85,11 @@ class SgzCropper(SgzReader):
         header[8:12] = int_to_bytes(len_xlines)
         header[12:16] = int_to_bytes(len_ilines)
         header[16:20] = np_float_to_bytes_signed(np.int32(self.zslices[zslices_index_range[0]]))
-        header[20:24] = np_float_to_bytes(np.int32(self.xlines[xline_index_range[0]]))
-        header[24:28] = np_float_to_bytes(np.int32(self.ilines[iline_index_range[0]]))
+        header[20:24] = np_float_to_bytes_signed(np.int32(self.xlines[xline_index_range[0]]))
+        header[24:28] = np_float_to_bytes_signed(np.int32(self.ilines[iline_index_range[0]]))
         header[56:60] = int_to_bytes(compressed_data_length_diskblocks)
         header[60:64] = int_to_bytes((len_xlines * len_ilines * 32) // 8)
+        header[68:72] = int_to_bytes(len_xlines * len_ilines)
 
         # We need to inform the SEG-Y binary header what has happened to the trace length, otherwise
         # segyio will get all confused if attempting to read the cropped SGZ converted back to SEG-Y
@@ -160,15 +169,28 @@ class SgzCropper(SgzReader):
                                                                                                   xline_index_range,
                                                                                                   zslices_index_range)
 
-        z_units = (pad(zslices_index_range[1], self.blockshape[2]) - zslices_index_range[0]) // 4
-        xl_units = (xline_index_range[1] - xline_index_range[0]) // 4
-        il_units = (iline_index_range[1] - iline_index_range[0]) // 4
-
         header = self.regenerate_header(iline_index_range, xline_index_range, zslices_index_range)
-        compressed_bytes = self.loader.read_chunk_range(iline_index_range[0],
-                                                        xline_index_range[0],
-                                                        zslices_index_range[0],
-                                                        il_units, xl_units, z_units)
+        if self.blockshape[0] == 4 and self.blockshape[1] == 4:
+            z_units = (pad(zslices_index_range[1], self.blockshape[2]) - zslices_index_range[0]) // 4
+            xl_units = (pad(xline_index_range[1], 4) - xline_index_range[0]) // 4
+            il_units = (pad(iline_index_range[1], 4) - iline_index_range[0]) // 4
+            compressed_bytes = self.loader.read_chunk_range(iline_index_range[0],
+                                                            xline_index_range[0],
+                                                            zslices_index_range[0],
+                                                            il_units, xl_units, z_units)
+        else:
+            # General layouts: whole disk blocks, ordered inline-block, crossline-block, z-block
+            first_block = [index_range[0] // size for index_range, size in
+                           zip((iline_index_range, xline_index_range, zslices_index_range), self.blockshape)]
+            stop_block = [pad(index_range[1], size) // size for index_range, size in
+                          zip((iline_index_range, xline_index_range, zslices_index_range), self.blockshape)]
+            compressed_bytes = bytearray()
+            for i in range(first_block[0], stop_block[0]):
+                for x in range(first_block[1], stop_block[1]):
+                    for z in range(first_block[2], stop_block[2]):
+                        block_id = (i * self.loader.block_dims[1] + x) * self.loader.block_dims[2] + z
+                        compressed_bytes += self.loader._get_compressed_bytes(block_id * self.block_bytes, self.block_bytes)
+
         with open(out_file, 'wb') as new_sgz_file:
             new_sgz_file.write(header)
             new_sgz_file.write(compressed_bytes)
@@ -178,4 +200,8 @@ class SgzCropper(SgzReader):
                 header_array = self.variant_headers[k].reshape((self.n_ilines, self.n_xlines)).astype(np.int32)
                 cropped_header_array = header_array[iline_index_range[0]:iline_index_range[1],
                                                     xline_index_range[0]:xline_index_range[1]]
-                new_sgz_file.write(cropped_header_array.flatten().tobytes())
+                header_bytes = cropped_header_array.flatten().tobytes()
+                if self.file_version > SeismicZfpVersion("0.2.1"):
+                    # Readers of these versions expect every header array padded to 512 bytes
+                    header_bytes += bytes(-len(header_bytes) % 512)
+                new_sgz_file.write(header_bytes)
